@@ -2,7 +2,7 @@
 From Coq Require Import List NArith ZArith Bool Lia.
 From Common Require Import Bytes Outcome.
 From Gen Require Import C08.
-From C08 Require Import Model ModelCD ModelLL ModelSub Proofs Proofs_cd Proofs_ll Proofs_ll3 Proofs_ll4 Proofs_sub.
+From C08 Require Import Model ModelCD ModelLL ModelSub ModelFL Proofs Proofs_cd Proofs_ll Proofs_ll3 Proofs_ll4 Proofs_sub Proofs_fl.
 Import ListNotations.
 Local Open Scope N_scope.
 
@@ -27,6 +27,17 @@ Theorem coverage_len :
     M_cov_encode_len t = Ok (N.of_nat (length b)).
 Proof. exact cov_len_agrees. Qed.
 Print Assumptions coverage_len.
+
+(* Loud refusal: for a table given with its keys in increasing order, Encode
+   returns only if the table satisfies the Table invariant (index = rank in
+   glyph order); every other table - index out of range, not monotone, an index
+   used twice (fixes/C08-coverage-duplicate-index.diff) - makes it panic. *)
+Theorem coverage_encode_refuses_invalid :
+  forall (t : list (N * Z)) (b : list N),
+    inc_from (-1) (map fst t) = true -> M_cov_encode t = Ok b ->
+    t = S_cov_table (map fst t).
+Proof. exact cov_encode_ok_valid. Qed.
+Print Assumptions coverage_encode_refuses_invalid.
 
 (* The emitted table has the size of the smaller of the two formats of the
    OpenType text (4+2n vs 4+6*runs), format 1 on a tie, and the format word
@@ -286,3 +297,19 @@ Theorem coverage_set_of_table :
   forall data pos l, M_cov_read data pos = Ok l -> M_covset_read data pos = Ok (map fst l).
 Proof. exact covset_of_cov. Qed.
 Print Assumptions coverage_set_of_table.
+
+(* ---------------- feature list (gtab/featurelist.go) ---------------- *)
+(* The writer refuses (panics) when a feature record offset or a lookup count
+   does not fit 16 bits (the count guard is part of
+   fixes/C08-list-offset-guards.diff); whatever it writes reads back. *)
+Theorem featurelist_roundtrip :
+  forall (fl : list feature) (b pre post : list N),
+    Forall feature_ok fl -> M_fl_encode fl = Ok b ->
+    M_fl_read (pre ++ b ++ post) (lenN pre) = Ok fl.
+Proof. exact fl_roundtrip. Qed.
+Print Assumptions featurelist_roundtrip.
+
+Theorem featurelist_read_total :
+  forall (data : list N) (pos : N), M_fl_read data pos <> Panic.
+Proof. exact fl_read_total. Qed.
+Print Assumptions featurelist_read_total.
